@@ -1,6 +1,8 @@
 package checks
 
 import (
+	"encoding/json"
+	"fmt"
 	"time"
 
 	"github.com/magisterquis/curlrevshell/verifx/bworld"
@@ -8,7 +10,13 @@ import (
 )
 
 func init() {
-	registry["C03"] = checkDef{level: "model_checking", run: c03, replay: brokerReplayFunc}
+	registry["C03"] = checkDef{level: "model_checking", run: c03, replay: func(kind string, raw json.RawMessage) int {
+		if "c03term" == kind {
+			fmt.Println("terminal-seam findings are replayed by re-running ./run C03 quick (the enumeration takes seconds); the failing case is in the artefact")
+			return 2
+		}
+		return brokerReplayFunc(kind, raw)
+	}}
 }
 
 // c03Profiles: every sequence of read results (data, zero-length reads, data
@@ -80,5 +88,13 @@ func c03(r *ev.Result, tier string) {
 		budget = 10 * time.Minute
 	}
 	exploreProfiles(r, budget, c03Profiles(isQuick(tier))...)
-	r.Assume("the terminal seam (goxterm's LF->CRLF translation and Ctrl+O muting) is covered by C19's check; this check decides the broker seam up to the operator channel")
+	/* The terminal seam: the real Shell on a pty shows exactly what the
+	operator channel carries, in order, however far behind it is. */
+	maxLen := 4
+	if !isQuick(tier) {
+		maxLen = 6
+	}
+	runTermSeam(r, "c03", maxLen, "c03term")
+	r.Rule += fmt.Sprintf("; plus the terminal seam: every sequence of <=%d items over {plain chunk, chunk without newline, multi-line chunk, close-style notice, status line} through the real opshell.Shell on a pty, delivered stepwise, as a burst, and as a backlog queued before the Shell starts reading; the terminal (ANSI sequences removed) must equal the CR-LF translation of the plain chunks and the notices, in order", maxLen)
+	r.Assume("Ctrl+O muting is C19's subject; goxterm's own LF->CRLF translation in raw mode is the only permitted difference between the channel and the terminal")
 }
